@@ -206,9 +206,21 @@ class Decider:
                             vals = []
                             for i in range(len(tg.elts)):
                                 vals.append(frozenset(w[i] if isinstance(w, tuple) and len(w) == len(tg.elts) else UNKNOWN for w in whole))
-                        env = {**env, **{x.id: v for x, v in zip(tg.elts, vals)}}
+                        # components that are not understood stay unbound (a rule's value_leaf may still name them)
+                        env = {k: v for k, v in env.items() if k not in {x.id for x in tg.elts}}
+                        env.update({x.id: v for x, v in zip(tg.elts, vals) if v != frozenset({UNKNOWN})})
                 elif isinstance(a, ast.AugAssign) and isinstance(a.target, ast.Name):
                     outs = outs + (("aug", a.target.id, n),)
+                    if isinstance(a.op, ast.Add) and a.target.id in env:
+                        # x += v on a tracked string value: concatenation
+                        rs = self.ev(fi, a.value, env, benv, aliases, depth)
+                        ls = env[a.target.id]
+                        if len(ls) * len(rs) <= 16:
+                            env = {**env, a.target.id: frozenset(_cat(l, r) for l in ls for r in rs)}
+                        else:
+                            env = {**env, a.target.id: frozenset({UNKNOWN})}
+                    elif a.target.id in env:
+                        env = {**env, a.target.id: frozenset({UNKNOWN})}
                 elif isinstance(a, ast.Expr) and isinstance(a.value, ast.Call) and isinstance(a.value.func, ast.Attribute) \
                         and a.value.func.attr in ("append", "add") and len(a.value.args) == 1:
                     outs = outs + (self.ev(fi, a.value.args[0], env, benv, aliases, depth),)
